@@ -79,6 +79,8 @@ class Interp(object):
             owner = r[1]
             mod = owner.module if isinstance(owner, ClassInfo) else owner
             cls = owner if isinstance(owner, ClassInfo) else None
+            if id(r[2]) in self.prog.mutated_containers():
+                return Opaque('registry %s:%s' % (getattr(owner, 'qualname', None) or owner.name, src_of(r[2])))
             try:
                 return self.lift(self.prog.fold(r[2], mod, cls))
             except NotConst:
@@ -192,6 +194,9 @@ class Interp(object):
         if isinstance(b, Const) and b.value is None and not attr.startswith('__'):
             return [('raise', Opaque("AttributeError('NoneType' object has no attribute %r)" % attr), st)]
         if isinstance(b, Const) and isinstance(b.value, (str, bytes)) and attr in prims.ConstMethod.SAFE:
+            return [('val', prims.ConstMethod(b.value, attr), st)]
+        if isinstance(b, Const) and isinstance(b.value, int) and not isinstance(b.value, bool) and \
+                attr in ('bit_length', 'to_bytes'):
             return [('val', prims.ConstMethod(b.value, attr), st)]
         if isinstance(b, Const) and attr == 'packed':
             return [('val', Opaque(b.desc() + '.packed', 'bytes'), st)]
